@@ -83,7 +83,7 @@ func pickRel(r *rand.Rand, td *openfgav1.TypeDefinition) string {
 	return names[r.Intn(len(names))]
 }
 
-const NDegenerations = 32
+const NDegenerations = 33
 
 func degenerateOnce(r *rand.Rand, m *openfgav1.AuthorizationModel) string {
 	td := pickTD(r, m)
@@ -276,6 +276,12 @@ func degenerateOnce(r *rand.Rand, m *openfgav1.AuthorizationModel) string {
 		if len(m.Conditions) > 0 {
 			return "condition with a module but no source info"
 		}
+	case 32:
+		if m.Conditions == nil {
+			m.Conditions = map[string]*openfgav1.Condition{}
+		}
+		m.Conditions["unnamed"] = &openfgav1.Condition{Expression: "x < 1", Parameters: map[string]*openfgav1.ConditionParamTypeRef{"x": {TypeName: openfgav1.ConditionParamTypeRef_TYPE_NAME_INT}}}
+		return "condition whose nested name is empty"
 	case 29:
 		if td != nil {
 			// the same type twice
